@@ -44,6 +44,8 @@ func (w *world) run() {
 		switch e % 4 {
 		case 1:
 			sched = "stall"
+		case 2:
+			sched = "latewrite"
 		case 3:
 			sched = "reorder"
 		}
@@ -79,6 +81,8 @@ func (w *world) runEpoch(e, nops int, sched string, reorders int, emit bool) {
 		sds = []*stallDriver{w.newStallDriver(0), w.newStallDriver(1)}
 	case "reorder":
 		rd = w.newReorderDriver(reorders)
+	case "latewrite":
+		w.installLateWrite()
 	}
 
 	var wg sync.WaitGroup
@@ -88,6 +92,11 @@ func (w *world) runEpoch(e, nops int, sched string, reorders int, emit bool) {
 			defer wg.Done()
 			wk.runEpoch(nops)
 		}(wk)
+	}
+	if sched == "plain" && e%8 == 0 {
+		// sessions that are just being set up (Pre* handshake) next to the running traffic
+		wg.Add(1)
+		go func() { defer wg.Done(); w.extraHandshakes(e, 2, w.pf) }()
 	}
 	workersDone := make(chan struct{})
 	go func() { wg.Wait(); close(workersDone) }()
@@ -251,7 +260,7 @@ func (w *world) checkSeen(ep *endpoint, e int, quiescent bool) {
 			bad(fmt.Sprintf("input tagged %s which the peer endpoint never issued", tag))
 			continue
 		}
-		if (op.kind == kPush) != (s.mtype == 3) {
+		if isPush(op.kind) != (s.mtype == 3) {
 			bad(fmt.Sprintf("%s %s was delivered as message type %d", kindName[op.kind], tag, s.mtype))
 		}
 		ep.mu.Lock()
@@ -265,7 +274,7 @@ func (w *world) checkSeen(ep *endpoint, e int, quiescent bool) {
 		if s.v1.method != wantMethod {
 			bad(fmt.Sprintf("%s: service method %q, sent %q", tag, s.v1.method, wantMethod))
 		}
-		if op.kind != kPush && op.done && op.seq != s.v1.seq {
+		if !isPush(op.kind) && op.done && op.seq != s.v1.seq {
 			bad(fmt.Sprintf("%s: handler saw seq %d, the call was sent with seq %d", tag, s.v1.seq, op.seq))
 		}
 		if !bytes.Equal(s.v1.body, op.args) {
